@@ -229,6 +229,10 @@ var expandable = []expField{
 	{[]string{"recommends"}, "recommends:", true, func(c *nfpm.Config) any { return c.Recommends }},
 	{[]string{"suggests"}, "suggests:", true, func(c *nfpm.Config) any { return c.Suggests }},
 	{[]string{"conflicts"}, "conflicts:", true, func(c *nfpm.Config) any { return c.Conflicts }},
+	{[]string{"overrides", "deb", "depends"}, "depends:", true, func(c *nfpm.Config) any { return c.Overrides["deb"].Depends }},
+	{[]string{"overrides", "rpm", "conflicts"}, "conflicts:", true, func(c *nfpm.Config) any { return c.Overrides["rpm"].Conflicts }},
+	{[]string{"overrides", "apk", "provides"}, "provides:", true, func(c *nfpm.Config) any { return c.Overrides["apk"].Provides }},
+	{[]string{"overrides", "archlinux", "replaces"}, "replaces:", true, func(c *nfpm.Config) any { return c.Overrides["archlinux"].Replaces }},
 	{[]string{"rpm", "packager"}, "  packager:", false, func(c *nfpm.Config) any { return c.RPM.Packager }},
 	{[]string{"rpm", "signature", "key_file"}, "    key_file:", false, func(c *nfpm.Config) any { return c.RPM.Signature.KeyFile }},
 	{[]string{"rpm", "signature", "key_id"}, "    key_id:", false, func(c *nfpm.Config) any { return ptrStr(c.RPM.Signature.KeyID) }},
